@@ -70,7 +70,7 @@ def ioLine (fmt : Fmt) (sl : Nat) (doc : List Char) (ln : Int) (im : Bool) (c : 
   match c.tag with
   | "B" => (report o .docstring (rstFieldLineno docutilsBase .bulletItem i), "P")
   | "D" => (report o .docstring (rstFieldLineno docutilsBase .deflistItem i), "P")
-  | "T" => (report o .xref classifierXrefOffset, "X")
+  | "T" => (report o .xref (classifierXrefOffset docutilsBase i), "X")
   | t => match parseCls t with
     | some cls => (reportedLine fmt sl doc ln im ⟨cls, c.raw, c.j⟩, showCls cls)
     | none => (.unknown, "?")
